@@ -5,9 +5,46 @@ import json
 import random
 
 from .. import core, gen, sx
+from .. import pymach as pm
 
 THEOREMS = ['C13.match_sound', 'C13.match_respects_seed', 'C13.match_complete', 'C13.matchList_sound',
             'C13.matchList_empty_succeeds', 'C13.head_transparent']
+
+
+def mv_records(p, acc):
+    k = p[0]
+    if k == 'mv':
+        acc.setdefault(p[1], []).append(p)
+    elif k in ('imp', 'app'):
+        mv_records(p[1], acc); mv_records(p[2], acc)
+    elif k in ('ex', 'mu'):
+        mv_records(p[2], acc)
+    elif k in ('esub', 'ssub'):
+        mv_records(p[1], acc); mv_records(p[3], acc)
+    return acc
+
+
+def constraint_violating_binding(b):
+    """a failed soundness law whose substitution binds some metavariable of the (expanded) pattern to a pattern that
+    does not satisfy the freshness / polarity constraints that metavariable declares"""
+    a = b['python']
+    if not (b['request'].startswith('law-match-sound') and '(binds' in a):
+        return False
+    try:
+        x = sx.parse(a)[0]
+        binds = {int(e[0]): sx.pat_of_sx(e[1]) for e in next(t for t in x if isinstance(t, list) and t and t[0] == 'binds')[1:]}
+        pat = sx.pat_of_sx(next(t for t in x if isinstance(t, list) and t and t[0] == 'pattern')[1])
+    except Exception:   # noqa
+        return False
+    for mid, recs in mv_records(pat, {}).items():
+        if mid not in binds:
+            continue
+        q = binds[mid]
+        for (_, _, ef, sf, ps, ns, _) in recs:
+            if any(not pm.e_fresh(q, e) for e in ef) or any(not pm.s_fresh(q, s) for s in sf) or \
+                    any(not pm.positive(q, s) for s in ps) or any(not pm.negative(q, s) for s in ns):
+                return True
+    return False
 
 
 def subst_free(rng, depth):
@@ -59,6 +96,16 @@ def run(rep):
         'successful_matches': sum(1 for a in pa if a.startswith('(some')), 'failed_matches': sum(1 for a in pa if a == 'none'),
         'samples': [lines[0], lines[1], lines[2], laws[0], laws[2], laws[-1]],
     })
+    n_known = 0
+    for b in bad:
+        if constraint_violating_binding(b):
+            # match_single binds a metavariable to a pattern that violates the constraints the metavariable declares
+            # (MetaVar.can_be_replaced_by is a TODO stub returning True): recorded open finding, not a new violation
+            n_known += 1
+            rep.violation('match_single binds a constrained metavariable to a pattern that violates its constraints: ' + b['python'][:120],
+                          b, True, key='py-match:constraint-violating-binding')
+    bad = [b for b in bad if not constraint_violating_binding(b)]
+    rep.coverage['constraint_violating_bindings'] = n_known
     for b in bad[:8]:
         rep.violation('matching law fails on the real code: ' + b['python'][:80], b, True, key='py-match:' + b['request'])
     if not bad:
